@@ -72,9 +72,9 @@ tr_t=num_t+txt_t+lst_t+mixed+xt_t
 # ---------- hash
 HK=[0,1,2,3,4,5,6,7,8,9,11,12,14,17,21,22,24]
 kp=[[k,k] for k in HK]+[[1,9],[1,11],[11,21],[7,11],[0,21],[8,6],[3,4],[1,8],[2,3],[21,24],[5,6],[L(1,1),L(1,1)],[1,L(1,1)]]
-Hq=[[1,2,3,4],[1,6,3,8],[1,1,8,3],[1,7,4,3]]
-Ht=Hq+[[1,2,5,4],[1,2,8,0],[1,5,3,8],[1,2,7,4],[5,1,3,0],[2,1,6,3],[1,2,2,4],[3,1,3,5],[2,2,5,3],[1,2,1,8],[6,2,5,8],[1,2,5,6]]
-hash_q=[p+h for p in kp for h in Hq]
+Hq=[[1,2,3,4],[1,6,3,8],[9,5,3,8],[1,9,5,3],[1,1,8,3],[1,7,4,3]]
+Ht=Hq+[[9,6,3,8],[9,3,8,5],[10,9,5,4],[9,10,6,5],[2,9,7,3],[9,1,3,5],[1,2,5,4],[1,2,8,0],[1,5,3,8],[1,2,7,4],[5,1,3,0],[2,1,6,3],[1,2,2,4],[3,1,3,5],[2,2,5,3],[1,2,1,8],[6,2,5,8],[1,2,5,6]]
+hash_q=[p+h for p in kp for h in Hq if p!=[22,22] or h in ([1,6,3,8],[9,5,3,8])]  # 2-byte symbol keys: 71 paths per history
 hash_t=[p+h for p in kp for h in Ht]
 # ---------- types
 names=['arithmetic-error','array','bag-flavor','bag-path','bignum','bit','bit-vector','byte','cell-error','channel','character','class-not-found','complex','condition','control-error','division-by-zero','double-float','end-of-file','error','file-error','file-stream','fixnum','flavor','float','hash-table','input-stream','integer','invalid-method-error','logger-flavor','long-float','no-applicable-method-error','number','octet','octets','output-stream','package','package-error','parse-error','print-not-readable','program-error','ratio','rational','reader-error','real','sequence','serious-condition','short-float','signed-byte','simple-condition','simple-error','simple-type-error','simple-warning','single-float','stream','stream-error','string','symbol','system','time','type-error','unbound-slot','unbound-variable','undefined-function','unsigned-byte','vanilla-flavor','vector','warning','list','t']
@@ -100,8 +100,10 @@ spec=[
     note="(i, second obligation) The Go Equal methods called directly through slip.ObjectEqual (Fixnum/Bignum/Ratio/SingleFloat/DoubleFloat/String/Symbol/Character/List/Vector.Equal): reflexive, symmetric, transitive over the same triples as C16.trans. Carve C16-number-compare-rounds (Fixnum.Equal(SingleFloat) rounds the fixnum). No stubs."),
  ob("sxhash","VerifC16Sxhash",[[i] for i in range(36)],reach=["hashed","equal-pair"],
     note="(ii) ENUMERATION, not symbolic: 36 concrete representative objects (numbers of every representation incl. equal values in different representations, strings differing in ASCII and non-ASCII case, symbols, characters, lists, vectors); for every ordered pair (i by case, j by vrt.Choice): sxhash returns a non-negative fixnum, is stable, and (equal x y) implies the same code. sxhash goes through ojg sen.Bytes (native); engine/x_c16.go models ojg's alt.Simplifier arm by calling the object's interpreted Simplify() and passing the plain data to the native sen.Bytes; the native replay of witnesses compares the hash codes (vrt.Note) with the real ones. Carve C16-sxhash-not-equal-invariant: equal objects of different Go type/content."),
+ ob("sxhash-case","VerifC16SxhashCase",[[p,k,o] for p in (0,1) for k in (0,1) for o in (0,1)],reach=["hashed","equal-pair","same-symbol"],
+    note="(ii) ENUMERATION, not symbolic: for every letter a..z (vrt.Choice) the two 2-byte texts differing only in the case of that one letter (letter first / last, companion q / Q), as strings (equal is case-insensitive on strings: asserted, so the implication is never vacuous) and as symbols (Symbol.Equal/equalp are case-insensitive and sxhash documents case-insensitive codes for symbols): equal => equalp, equal (strings) or Equal (symbols) => same sxhash; plus 36 digit/punctuation bytes unchanged in two separately built texts. The codes go into vrt.Note and are compared with the native run at witness replay."),
  ob("hash","VerifC16Hash",hash_q,hash_t,reach=["history","maphash"],
-    note="(iii) Hash table = finite map. A history of up to 4 operations (params 3..6: 0 none, 1/2 (setf (gethash A/B h) v), 3/4 gethash A/B, 5/6 remhash A/B, 7 clrhash, 8 hash-table-count) on a table from make-hash-table, followed by count and both lookups, against a reference association list under the table's documented test (eql): same type and value, strings by content, symbols by text, lists by identity. Two keys A, B of kinds (ka,kb) with independent symbolic payloads, so equal and different keys are both explored. Assumed away (slip's eql and the standard eql disagree): numbers of different representation with the same value, symbols differing only in case. Values stored are distinct fixnums. At the end (maphash fn h) with a lambda collecting (k v) must visit exactly the model's entries (as a set). Carves: C16-hash-pointer-keys (bignum/ratio keys with equal value), C16-hash-unhashable-key (list keys)."),
+    note="(iii) Hash table = finite map. A history of up to 4 operations (params 3..6: 0 none, 1/2 (setf (gethash A/B h) v), 9/10 (setf (gethash A/B h) nil) — a stored NIL is an entry: gethash => nil,t, remhash => t and removes it —, 3/4 gethash A/B, 5/6 remhash A/B, 7 clrhash, 8 hash-table-count) on a table from make-hash-table; each operation's own result (remhash's return value, gethash's two values) is compared with the model and AFTER EVERY OPERATION the whole observable state is compared: hash-table-count, both values of gethash for A and for B, and the set of key/value pairs maphash visits; against a reference association list under the table's documented test (eql): same type and value, strings by content, symbols by text, lists by identity. Two keys A, B of kinds (ka,kb) with independent symbolic payloads, so equal and different keys are both explored. Assumed away (slip's eql and the standard eql disagree): numbers of different representation with the same value, symbols differing only in case. Values stored are distinct fixnums or NIL. maphash is called with a lambda collecting (k v). Carves: C16-hash-pointer-keys (bignum/ratio keys with equal value), C16-hash-unhashable-key (list keys)."),
  ob("typeof","VerifC16TypeOf",[[k] for k in TK],reach=["typed"],
     note="(iv) (typep x (type-of x)), (typep x t), and typep of every member of x.Hierarchy() for an object of each kind (payload symbolic where the kind has one). Carve C16-typep-nil-supertypes (x = nil)."),
  ob("subtypep","VerifC16Subtypep",[[i] for i in range(70)],reach=[],
@@ -114,7 +116,7 @@ spec=[
 # known-finding witness obligations (small; the probe run explores inside the region)
 def kf(id, entry, cases, carve, stub=True):
     return ob("kf-"+id, entry, cases, reach=[], carves=[carve], stub=stub,
-      note="Witness cases for known finding "+carve+": the main run assumes the complement of the region (these cases are then empty or clean), the probe run explores inside it and must reproduce the defect natively.")
+      note="Witness cases for known finding "+carve+": the main run assumes the complement of the region (these cases are then empty or clean), the probe run explores inside it and must reproduce the defect natively. (Once the finding is marked fixed in known_findings.d the carve is a no-op and these are ordinary regression cases.)")
 spec+=[
  kf("equalp-nil","VerifC16Pair",[[0,1],[L(0,1),L(1,1)]],"C16-equalp-nil-deref"),
  kf("eql-char","VerifC16Pair",[[7,1]],"C16-eql-char-type-assertion"),
@@ -131,7 +133,7 @@ spec+=[
  kf("coerce-sb","VerifC16Coerce",[[41,names.index('unsigned-byte')]],"C16-coerce-signed-to-unsigned"),
 ]
 # sxhash first: check validates the first witnesses natively, and the sxhash notes carry the hash codes computed through the sen.Bytes model
-spec.sort(key=lambda o: 0 if o["id"]=="C16.sxhash" else 1)
+spec.sort(key=lambda o: 0 if o["id"] in ("C16.sxhash","C16.sxhash-case") else 1)
 out=sys.argv[1] if len(sys.argv)>1 else '/verif/harness/obligations.d/C16.json'
 json.dump(spec,open(out,'w'),indent=1)
 for s in spec: print(s['id'],len(s['cases']['quick']),len(s['cases']['thorough']))
